@@ -118,6 +118,8 @@ fn check<C: Suite>(case: &Case, ctx: &mut Ctx) -> CheckResult {
     let (n, t) = (shape.n as usize, shape.t as usize);
     let dkg = case.source & 1 == 1;
     let refreshed = case.source & 2 == 2;
+    // the ciphersuite crate's own keys::repairable::* give what the generic functions give (also on refused input)
+    crate::wrappers::differential::<C>(ctx, "C11", crate::wrappers::Part::Repair, case.seed)?;
     let keys = make_keys::<C>(shape, case.ids, if dkg { KeySource::Dkg } else { KeySource::Dealer }, case.seed, "C11")?;
     let mut rng = Sm(case.seed ^ 0xc11);
     let (kps, pubkeys): (BTreeMap<Id<C>, KeyPackage<C>>, PublicKeyPackage<C>) = if refreshed {
